@@ -163,6 +163,51 @@ func (r *rt) readVal(toks []string) (goja.Value, []string, bool) {
 	}
 	t, rest := toks[0], toks[1:]
 	switch t[0] {
+	case 'I':
+		return r.vm.ToValue(math.Inf(1)), rest, true
+	case 'g':
+		gv, err := r.vm.RunString("12345678901234567890n")
+		if err != nil {
+			return nil, nil, false
+		}
+		return gv, rest, true
+	case 'X':
+		// boxed primitives: Xn<hex> new Number, Xi new Number(-Infinity), Xs<hex> new String, Xt/Xf new Boolean,
+		// Xg Object(BigInt), Xy Object(Symbol())
+		if len(t) < 2 {
+			return nil, nil, false
+		}
+		var src string
+		switch t[1] {
+		case 'i':
+			src = "new Number(-Infinity)"
+		case 't':
+			src = "new Boolean(true)"
+		case 'f':
+			src = "new Boolean(false)"
+		case 'g':
+			src = "Object(7n)"
+		case 'y':
+			src = "Object(Symbol(\"w\"))"
+		case 'n', 's':
+			inner, rest2, ok := r.readVal([]string{t[1:]})
+			if !ok || len(rest2) != 0 {
+				return nil, nil, false
+			}
+			r.vm.Set("__boxarg", inner)
+			if t[1] == 'n' {
+				src = "new Number(__boxarg)"
+			} else {
+				src = "new String(__boxarg)"
+			}
+		default:
+			return nil, nil, false
+		}
+		bv, err := r.vm.RunString(src)
+		if err != nil {
+			return nil, nil, false
+		}
+		return bv, rest, true
 	case 'u':
 		return goja.Undefined(), rest, true
 	case 'F':
@@ -732,6 +777,96 @@ func doRM(ws []string) string {
 	return v.String()
 }
 
+// SC <gap> <tok>*: value with object identities (F<id> function, A<id>:<n>, O<id>:<n>, R<id> = the object introduced as <id>:
+// a shared reference if it is finished, a cycle if it is still being built); native vs oracle vs MarshalJSON like S
+func (r *rt) readIdVal(toks []string, ids map[string]goja.Value) (goja.Value, []string, bool) {
+	if len(toks) == 0 {
+		return nil, nil, false
+	}
+	t, rest := toks[0], toks[1:]
+	switch t[0] {
+	case 'F':
+		fv, err := r.vm.RunString("(function(){})")
+		if err != nil {
+			return nil, nil, false
+		}
+		ids[t[1:]] = fv
+		return fv, rest, true
+	case 'R':
+		v, ok := ids[t[1:]]
+		return v, rest, ok
+	case 'A', 'O':
+		parts := strings.SplitN(t[1:], ":", 2)
+		if len(parts) != 2 {
+			return nil, nil, false
+		}
+		n, err := strconv.Atoi(parts[1])
+		if err != nil {
+			return nil, nil, false
+		}
+		def := r.fn("defProp")
+		var o *goja.Object
+		if t[0] == 'A' {
+			o = r.vm.NewArray()
+		} else {
+			o = r.vm.NewObject()
+		}
+		ids[parts[0]] = o
+		for i := 0; i < n; i++ {
+			var key goja.Value
+			if t[0] == 'A' {
+				key = r.vm.ToValue(strconv.Itoa(i))
+			} else {
+				if len(rest) == 0 || rest[0][0] != 's' {
+					return nil, nil, false
+				}
+				ku, ok := unhex(rest[0][1:])
+				if !ok {
+					return nil, nil, false
+				}
+				key = jsString(r, ku)
+				rest = rest[1:]
+			}
+			v, r2, ok := r.readIdVal(rest, ids)
+			if !ok {
+				return nil, nil, false
+			}
+			if _, err := def(goja.Undefined(), o, key, v); err != nil {
+				return nil, nil, false
+			}
+			rest = r2
+		}
+		return o, rest, true
+	}
+	// leaves
+	v, r2, ok := r.readVal([]string{t})
+	if !ok || len(r2) != 0 {
+		return nil, nil, false
+	}
+	return v, rest, true
+}
+
+func doSC(ws []string) string {
+	pooling = true
+	defer func() { pooling = false }()
+	if len(ws) < 2 {
+		return "bad"
+	}
+	gapTok, toks := ws[0], ws[1:]
+	mk := func(r *rt) (goja.Value, goja.Value, goja.Value, bool) {
+		v, rest, ok := r.readIdVal(toks, map[string]goja.Value{})
+		if !ok || len(rest) != 0 || gapTok[0] != 'n' {
+			return nil, nil, nil, false
+		}
+		k, err := strconv.ParseInt(gapTok[1:], 10, 64)
+		if err != nil {
+			return nil, nil, nil, false
+		}
+		return v, goja.Undefined(), r.vm.ToValue(k), true
+	}
+	return doCase(mk, false, true)
+}
+
 func doQ(h string) string {
 	units, ok := unhex(h)
 	if !ok {
@@ -778,6 +913,11 @@ func main() {
 			return doRV(ws[1:])
 		case "SL":
 			return doS(ws[1:], true)
+		case "SC":
+			return doSC(ws[1:])
+		case "SB":
+			// plain data with boxed primitives / BigInt / non-finite numbers (tokens I g X…): same comparison as S
+			return doS(ws[1:], false)
 		case "SM":
 			// plain data with undefined / function leaves (tokens u, F): same comparison as S
 			return doS(ws[1:], false)
